@@ -378,7 +378,18 @@ def check_c07_structure(ctx: Ctx) -> list[dict]:
     a, b = passthrough(ctx.source), passthrough(rec.result)
     ctx.counters["c07_passthrough_stmts"] += len(a)
     if a != b:
-        out.append({"kind": "pass-through-changed", "source": a[:10], "result": b[:10]})
+        kind = "pass-through-changed"
+        src_stmts = [s for s in ctx.source if s.ast_type in refast.PASS_THROUGH]
+        unp = [s for s in refast.unpooled(src_stmts)]
+        res_stmts = [s for s in rec.result if s.ast_type in refast.PASS_THROUGH]
+        with_body = {ASTType.ShowTerm, ASTType.External, ASTType.Heuristic, ASTType.Edge, ASTType.ProjectAtom}
+        if [str(s) for s in unp] == b:
+            kind = "pass-through-unpooled"
+        elif len(unp) == len(res_stmts) and all(
+            str(x) == str(y) or (x.ast_type == y.ast_type and x.ast_type in with_body) for x, y in zip(unp, res_stmts)
+        ):
+            kind = "pass-through-atoms-rewritten"
+        out.append({"kind": kind, "source": a[:10], "result": b[:10]})
     for v in rec.contract_violations:
         if v["contract"] in ("fresh_predicate", "fresh_variable", "single_purpose", "unused_protected"):
             out.append({"kind": "contract:" + v["contract"], **{k: v[k] for k in v if k != "contract"}})
@@ -404,7 +415,7 @@ def check_c18(ctx: Ctx) -> list[dict]:
     if missing:
         out.append({"kind": "open-predicate-missed", "preds": [list(p) for p in missing]})
     # p with a defining statement whose own body does not mention p must be excluded
-    for stm in prg:
+    for stm in refast.unpooled(prg):
         if stm.ast_type != ASTType.Rule:
             continue
         heads = {(("-" if s[2] else "") + s[0], s[1]) for s in (refast.atom_sig(h) for h in refast.positive_head_atoms(stm)) if s}
@@ -419,7 +430,7 @@ def check_c18(ctx: Ctx) -> list[dict]:
             if p in got_in:
                 out.append({"kind": "defined-predicate-reported", "pred": list(p), "stmt": str(stm)})
     ref_out = set()
-    for stm in prg:
+    for stm in refast.unpooled(prg):
         if stm.ast_type == ASTType.ShowSignature:
             ref_out.add((stm.name, stm.arity))
         elif stm.ast_type == ASTType.ShowTerm:
